@@ -11,7 +11,7 @@
      * the __init__ chain AliasMixin -> TracerMixin -> BaseModel/BaseLinker -> SolverMixin -> ModelInterface ->
        VectorContainer as a list of primitive heap actions ([init_actions]);
      * every public mutating operation as a list of primitive actions relative to the receiver ([op_...]);
-     * reindex ([reindex_M]) — cells are copied BY VALUE OF THE CELL, i.e. references for object-dtype arrays (#21);
+     * reindex ([reindex_M]) — since fixes af303e7 / 28b2a9a the new span and every carried-over object cell are deep-copied;
      * copy() under both memo policies (one fresh memo per __dict__ entry, as the code does; or one memo for all entries).
    What is abstracted: CPython object semantics (identity = heap location, no reference counting / gc, no cycles:
    [dc] is fuel-bounded and fails on a cyclic graph), scalar contents are opaque codes chosen by the harness. *)
@@ -710,6 +710,26 @@ Definition linker_copy_M (K : consts) (h : heap) (r : loc) : option (heap * loc)
 
 (* ------------------------------------------------------------------ reindex (VectorContainer.reindex after the strict test) *)
 (* positions: new position -> old position; fills: name -> fill scalar (the dtype-aware default logic is C12's business) *)
+(* the cells of one reindexed series: a carried-over cell is copied by value; since fix 28b2a9a a REFERENCE cell (object dtype: the
+   Trace of a period) is copy.deepcopy'd, one call - one fresh memo - per cell *)
+Fixpoint reindex_cells (h : heap) (old_cells : list (Z * val)) (positions : list (Z * Z)) (fill : Z) (idxs : list nat)
+  : option (heap * list val) :=
+  match idxs with
+  | [] => Some (h, [])
+  | i :: rest =>
+    let v := match assoc_get (Z.of_nat i) positions with
+             | Some old => match cell_get old old_cells with Some v => v | None => VS fill end
+             | None => VS fill end in
+    match deepcopy h v with
+    | None => None
+    | Some (h1, v') =>
+      match reindex_cells h1 old_cells positions fill rest with
+      | None => None
+      | Some (h2, vs) => Some (h2, v' :: vs)
+      end
+    end
+  end.
+
 Fixpoint reindex_vars (h : heap) (r r' : loc) (names : list Z) (n' : nat) (positions : list (Z * Z)) (fills : list (Z * Z))
   : option heap :=
   match names with
@@ -722,15 +742,15 @@ Fixpoint reindex_vars (h : heap) (r r' : loc) (names : list Z) (n' : nat) (posit
       | None => None
       | Some oa =>
         let fill := match assoc_get x fills with Some f => f | None => 0 end in
-        let cell := fun i : Z => match assoc_get i positions with
-                                 | Some old => match cell_get old (ocells oa) with Some v => v | None => VS fill end
-                                 | None => VS fill end in
-        let cells := map (fun i => cell (Z.of_nat i)) (seq 0 n') in
-        let lnew := length h in
-        let h1 := h ++ [mkObj (okind oa) (enum cells)] in       (* np.full(...) then reindexed[name][new] = self[name][old] *)
-        match nth_error h1 r' with
+        match reindex_cells h (ocells oa) positions fill (seq 0 n') with
         | None => None
-        | Some o' => reindex_vars (set_obj h1 r' (mkObj (okind o') (cell_set (V x) (VR lnew) (ocells o')))) r r' rest n' positions fills
+        | Some (h0, cells) =>
+          let lnew := length h0 in
+          let h1 := h0 ++ [mkObj (okind oa) (enum cells)] in       (* np.full(...) then reindexed[name][new] = <copy of> self[name][old] *)
+          match nth_error h1 r' with
+          | None => None
+          | Some o' => reindex_vars (set_obj h1 r' (mkObj (okind o') (cell_set (V x) (VR lnew) (ocells o')))) r r' rest n' positions fills
+          end
         end
       end
     end
@@ -741,12 +761,21 @@ Definition reindex_M (K : consts) (h : heap) (r : loc) (span : src) (n' : nat) (
   match copy_M K h r with
   | None => None
   | Some (h1, r') =>
-    match run_action h1 r' (ASet [] (A N_span) span) with
+    (* reindexed.__dict__['span'] = copy.deepcopy(span)   (fix af303e7: whatever the caller hands in, the result owns a copy) *)
+    match eval_src h1 r' span with
     | None => None
-    | Some h2 =>
-      match reindex_vars h2 r r' (scalars_path h2 r' [A N_index]) n' positions fills with
+    | Some (ha, v) =>
+      match deepcopy ha v with
       | None => None
-      | Some h3 => Some (h3, r')
+      | Some (hb, v') =>
+        match run_action hb r' (ASet [] (A N_span) (val_src v')) with
+        | None => None
+        | Some h2 =>
+          match reindex_vars h2 r r' (scalars_path h2 r' [A N_index]) n' positions fills with
+          | None => None
+          | Some h3 => Some (h3, r')
+          end
+        end
       end
     end
   end.
